@@ -310,7 +310,7 @@ package rpc
 // used gg_lastconn); their bodies are verified under Part 5 where present.
 //@ func checkPersistConnErr
 //@   property C14
-//@   requires pc != nil && pc.Conn != nil && !isnil(pc.Conn.codec)
+//@   requires pc != nil && pc.Conn != nil
 //@   ghostset gb_markedDead(pc) = gb_markedDead(pc) || err == ErrShutdown
 //@   ensures implies(err == ErrShutdown, !pc.alive && gb_closeCalled(pc.Conn))
 
@@ -323,7 +323,7 @@ package rpc
 //@   ensures implies(len(addr) == 0, result == ErrDial && gg_ncall() == old(gg_ncall()))
 //@ func (*Transport).CallWithContext
 //@   property C14 C04 C19
-//@   requires t != nil
+//@   requires t != nil && !isnil(ctx)
 //@   ensures gg_ncall() == old(gg_ncall()) || (oneCallTo(addr) && implies(result == ErrShutdown, gb_markedDead(gg_gotpc())))
 //@   ensures implies(len(addr) == 0, result == ErrDial && gg_ncall() == old(gg_ncall()))
 //@ func (*Transport).Ping
@@ -532,7 +532,8 @@ package rpc
 //@   guards Conn.seq, Conn.pending, Conn.streams, Conn.closing, Conn.shutdown, Map<map[uint64]*Call>
 //@   tokens tok with gv_slot
 //@   invariant self.pending != nil && self.streams != nil
-//@   invariant forallkey(s, self.pending, self.pending[s] != nil && self.pending[s].upgrade != nil)
+//@   invariant forallkey(s, self.pending, self.pending[s] != nil)
+//@   invariant [C08] implies(!self.shutdown, forallkey(s, self.pending, self.pending[s].upgrade != nil))
 //@   invariant forallkey(s, self.streams, self.streams[s] != nil)
 //@   invariant [C02] implies(!self.shutdown, forallkey(s, self.pending, gf_tok(self.pending[s]) == 1 || gb_internal(self.pending[s])))
 //@   invariant [C02] implies(self.shutdown, forallkey(s, self.pending, gf_tok(self.pending[s]) != 1 || gb_internal(self.pending[s])))
@@ -621,10 +622,11 @@ package rpc
 //@   ghostset gg_rbody() = gg_rbody() + 1
 
 //@ func (*Conn).finishCall
-//@   property C01 C02 C11 C19
+//@   property C01 C02 C08 C11 C19
 //@   requires conn != nil && ctx != nil && call != nil && conn.bufferPool != nil
 //@   requires [C02] gf_tok(call) == 2 && !gb_internal(call)
 //@   ensures [C02] gf_tok(call) == 0 && gg_dones() == old(gg_dones()) + 1
+//@   atcall buffer.(*Pool).PutBuffer#1: [C11] len(old(ctx.value)) == 0 || arr(call.Value) != arr(buf) || arr(call.Value) == arr(old(call.Buffer))
 //@   ensures [C01] gg_rbody() == old(gg_rbody()) + 1
 //@   ensures [C19] implies(len(old(ctx.value)) > 0 && cap(old(call.Buffer)) >= len(old(ctx.value)), arr(call.Value) == arr(old(call.Buffer)) && len(call.Value) == len(old(ctx.value)))
 //@   ensures [C01] implies(len(old(ctx.value)) > 0, len(call.Value) == len(old(ctx.value)))
@@ -633,9 +635,10 @@ package rpc
 //@      implies(!conn.directIO, !isnil(conn.readStream))
 
 //@ func (*Conn).read
-//@   property C01 C02 C05 C06 C09 C19
+//@   property C01 C02 C05 C06 C08 C09 C19
 //@   requires readable(conn, ctx)
 //@   atcall (*Call).done#1: [C05] isnil(conn.readSched)
+//@   atcall buffer.(*Pool).PutBuffer#2: [C06 C11] call.Error == ErrShutdown || errarr(call.Error) != arr(ctx.buffer)
 //@ func (*Conn).read$1
 //@   property C02 C05
 //@   requires call != nil
@@ -667,7 +670,7 @@ package rpc
 //@ pure unswept(c *Call, k uint64) bool = (gf_tok(c) == 1 || gb_internal(c)) && implies(gf_tok(c) == 1 && !gb_internal(c), gv_slot(c) == k)
 
 //@ func (*Conn).recv
-//@   property C02 C03 C20
+//@   property C02 C03 C08 C20
 //@   requires conn != nil && conn.bufferPool != nil && implies(!conn.directIO, !isnil(conn.readStream))
 //@   requires !gb_swept(conn)
 //@   loop 1: invariant !gb_swept(conn)
@@ -803,3 +806,269 @@ package rpc
 //@ func NewConnWithCodec
 //@   property C20
 //@   ghostat (*Conn).recv#1: gb_swept(arg0) = false
+
+// ---------------------------------------------------------------------------
+// Part 6: codecs (codec_client.go, codec_server.go) and server (server.go)
+// ---------------------------------------------------------------------------
+//@ func (*pbRequest).Reset
+//@   inline
+//@ func (*pbRequest).SetSeq
+//@   inline
+//@ func (*pbRequest).GetSeq
+//@   inline
+//@ func (*pbRequest).SetUpgrade
+//@   inline
+//@ func (*pbRequest).GetUpgrade
+//@   inline
+//@ func (*pbRequest).SetServiceMethod
+//@   inline
+//@ func (*pbRequest).GetServiceMethod
+//@   inline
+//@ func (*pbRequest).SetArgs
+//@   inline
+//@ func (*pbRequest).GetArgs
+//@   inline
+//@ func (*pbResponse).Reset
+//@   inline
+//@ func (*pbResponse).SetSeq
+//@   inline
+//@ func (*pbResponse).GetSeq
+//@   inline
+//@ func (*pbResponse).SetError
+//@   inline
+//@ func (*pbResponse).GetError
+//@   inline
+//@ func (*pbResponse).SetReply
+//@   inline
+//@ func (*pbResponse).GetReply
+//@   inline
+
+//@ extern buffer.(*Pool).GetBuffer
+//@   params p, size
+//@   ensures fresh(result) && implies(size > 0, len(result) == size)
+//@ extern buffer.(*Pool).PutBuffer
+//@   params p, buf
+//@   ghostset gg_putbuf() = gg_putbuf() + 1
+//@ iface socket.Messages.WriteMessage
+//@   params m, data
+//@   ghostset gg_wmsg() = gg_wmsg() + 1
+//@ iface Codec.Marshal
+//@   params c, buf, v
+//@   ensures len(result0) <= 1<<40
+//@ iface Codec.Unmarshal
+//@   params c, data, v
+
+//@ iface error.Error
+//@   params e
+//@   ensures len(result) <= 1<<40 && len(result) >= 1
+//@ iface Encoder.NewRequest
+//@   params e
+//@   ensures !isnil(result)
+//@ iface Encoder.NewResponse
+//@   params e
+//@   ensures !isnil(result)
+//@ iface Encoder.NewCodec
+//@   params e
+//@   ensures !isnil(result)
+//@ pure respWire(b []byte, seq uint64, e string, r []byte) bool = pbVarintField(b, 0, 0x08, seq) &&
+//@      pbBytesField(b, ite(seq != 0, 1+vsize(seq), 0), 0x12, e) &&
+//@      pbBytesField(b, ite(seq != 0, 1+vsize(seq), 0) + fieldLen(uint64(len(e))), 0x1a, r)
+//@ pure reqWire(b []byte, seq uint64, u []byte, m string, a []byte) bool = pbVarintField(b, 0, 0x08, seq) &&
+//@      pbBytesField(b, ite(seq != 0, 1+vsize(seq), 0), 0x12, u) &&
+//@      pbBytesField(b, ite(seq != 0, 1+vsize(seq), 0) + fieldLen(uint64(len(u))), 0x1a, m) &&
+//@      pbBytesField(b, ite(seq != 0, 1+vsize(seq), 0) + fieldLen(uint64(len(u))) + fieldLen(uint64(len(m))), 0x22, a)
+
+//@ func (*serverCodec).WriteResponse
+//@   property C07 C01 C06
+//@   requires c != nil && ctx != nil && ctx.upgrade != nil && !isnil(c.bodyCodec) && c.pool != nil && !isnil(c.messages)
+//@   requires len(ctx.Error) <= 1<<40 && len(ctx.value) <= 1<<40
+//@   atcall socket.Messages.WriteMessage#1: [C07 C01 C06] implies(isnil(c.headerEncoder), respWire(arg0, reqSeq, ctx.Error, reply))
+//@   ensures [C04] gg_wmsg() <= old(gg_wmsg()) + 1
+//@   ensures [C07 C04] implies(isnil(c.headerEncoder) && old(c.closed) == 0, gg_wmsg() == old(gg_wmsg()) + 1)
+
+//@ field serverCodec.closed: quiescent
+//@ field clientCodec.closed: quiescent
+//@ func (*clientCodec).WriteRequest
+//@   property C07 C01
+//@   requires c != nil && ctx != nil && ctx.upgrade != nil && !isnil(c.bodyCodec) && c.bufferPool != nil && !isnil(c.messages)
+//@   requires len(ctx.Upgrade) <= 1<<40 && len(ctx.ServiceMethod) <= 1<<40
+//@   atcall socket.Messages.WriteMessage#1: [C07 C01] implies(isnil(c.headerEncoder), reqWire(arg0, ctx.Seq, ctx.Upgrade, ctx.ServiceMethod, args))
+//@   ensures [C04] gg_wmsg() <= old(gg_wmsg()) + 1
+//@   ensures [C07 C04] implies(isnil(c.headerEncoder) && old(c.closed) == 0 && old(ctx.upgrade.NoRequest) == 1, gg_wmsg() == old(gg_wmsg()) + 1)
+
+// ---- server dispatch (server.go). Ghost events: gg_exec() handler invocations, gg_wresp() responses handed to the codec ----
+//@ pure ctxFree(c *Context) bool = !gb_registered(c)
+//@ field Server.ctxPool: pool *Context inv ctxFree
+//@ field Server.upgradePool: pool *upgrade inv upgradeZero
+//@ extern funcs.(*Funcs).GetFunc
+//@   params f, name
+//@   requires f != nil
+//@ extern funcs.(*Func).GetValueIn
+//@   params f, i
+//@   requires f != nil
+//@ extern funcs.(*Func).WithContext
+//@   params f
+//@   requires f != nil
+//@   ensures result == gb_withctx(f)
+//@ extern funcs.(*Func).ReturnOut
+//@   params f
+//@   requires f != nil
+//@   ensures result == gb_retout(f)
+//@ extern funcs.(*Func).ValueCall
+//@   params f, in
+//@   requires f != nil
+//@   requires [C08] forall(i, 0, len(in), !isnil(in[i]))
+//@   ghostset gg_exec() = gg_exec() + 1
+//@   ensures implies(err == nil && gb_retout(f), !isnil(ret))
+//@   modifies fresh
+//@ extern funcs.(Value).Interface
+//@   params v
+//@   requires !isnil(v)
+//@ extern funcs.ValueOf
+//@   params p
+//@   ensures !isnil(result)
+
+//@ iface ServerCodec.WriteResponse
+//@   params codec, ctx, x
+//@   requires ctx != nil && ctx.upgrade != nil
+//@   ghostset gg_wresp() = gg_wresp() + 1
+//@   ghostset ggv_rseq() = ctx.Seq
+//@   modifies ctx.Error
+//@ iface ServerCodec.ReadRequestHeader
+//@   params codec, ctx
+//@   requires ctx != nil
+//@   modifies ctx.ServiceMethod
+//@   modifies ctx.Upgrade
+//@   modifies ctx.Seq
+//@   modifies ctx.value
+//@ iface ServerCodec.ReadRequestBody
+//@   params codec, args, x
+//@   ghostset gg_rbodyS() = gg_rbodyS() + 1
+//@   modifies fresh
+
+//@ pure validUpgrade(u *upgrade) bool = ite(u.Heartbeat == 1 || u.Stream == 1 || u.Stream == 3, u.NoResponse == 1, u.Stream == 2 || (u.NoRequest != 1 && u.NoResponse != 1))
+//@ func (*upgrade).valid
+//@   property C08
+//@   requires u != nil
+//@   ensures result == validUpgrade(u)
+
+//@ pure srvOK(server *Server) bool = server != nil && server.ctxPool != nil && server.upgradePool != nil && server.Funcs != nil && server.logger != nil
+//@ pure ctxOK(ctx *Context) bool = ctx != nil && ctx.upgrade != nil && !isnil(ctx.codec) && legalUpgrade(ctx.upgrade)
+//@ pure sameUpgrade(ctx *Context) bool = ctx.upgrade == old(ctx.upgrade) && ctx.codec == old(ctx.codec) && ctx.upgrade.Stream == old(ctx.upgrade.Stream) &&
+//@      ctx.upgrade.NoRequest == old(ctx.upgrade.NoRequest) && ctx.upgrade.NoResponse == old(ctx.upgrade.NoResponse) && ctx.upgrade.Heartbeat == old(ctx.upgrade.Heartbeat)
+
+//@ func (*Server).getUpgrade
+//@   requires srvOK(server)
+//@   ensures result != nil && upgradeZero(result)
+//@ func (*Server).putUpgrade
+//@   requires srvOK(server) && u != nil
+
+//@ func (*Server).sendResponse
+//@   property C01 C04 C06 C08
+//@   modifies *ctx
+//@   requires srvOK(server) && ctxOK(ctx)
+//@   requires [C08] implies(len(ctx.Error) == 0 && ctx.upgrade.NoResponse != 1, !isnil(ctx.reply))
+//@   requires [C08 C04] implies(gb_registered(ctx), ctx.upgrade.Stream == 1)
+//@   atcall ServerCodec.WriteResponse#1: [C01 C04] arg0 == ctx && ctx.Seq == old(ctx.Seq) && sid(ctx.Error) == sid(old(ctx.Error))
+//@   ensures [C04] gg_wresp() == old(gg_wresp()) + 1 && gg_exec() == old(gg_exec())
+//@   ensures implies(old(ctx.upgrade.Stream) == 1, ctx.stream == old(ctx.stream))
+
+//@ func (*Server).readRequestHeader
+//@   property C08
+//@   requires srvOK(server) && ctxOK(ctx)
+//@   ensures implies(err == nil, ctx.upgrade == old(ctx.upgrade) && legalUpgrade(ctx.upgrade) && ctx.codec == old(ctx.codec))
+
+//@ func (*Server).readRequestBody
+//@   property C04 C08 C11
+//@   modifies *ctx
+//@   requires srvOK(server) && ctxOK(ctx) && ctx.upgrade.Stream != 3 && validUpgrade(ctx.upgrade) && ctx.upgrade.Heartbeat != 1
+//@   ensures gg_exec() == old(gg_exec()) && gg_wresp() == old(gg_wresp())
+//@   ensures sameUpgrade(ctx) && ctx.Seq == old(ctx.Seq) && ctx.ctx == old(ctx.ctx) && ctx.stream == old(ctx.stream)
+//@   ensures [C08] implies(err == nil && ctx.upgrade.Stream != 2, ctx.f != nil && !isnil(ctx.args))
+//@   atcall ServerCodec.ReadRequestBody#5: [C11] server.noCopy || len(arg0) == 0 || arr(arg0) != arr(ctx.buffer)
+//@   atcall ServerCodec.ReadRequestBody#5: [C11] server.noCopy || len(arg0) == 0 || arr(arg0) != arr(ctx.data)
+//@   ensures [C08] implies(err == nil && ctx.upgrade.Stream == 0 && ctx.upgrade.NoRequest != 1 && ctx.upgrade.NoResponse != 1 && !gb_retout(ctx.f), !isnil(ctx.reply))
+
+//@ func (*Server).callService
+//@   property C04 C06 C08
+//@   modifies *ctx
+//@   requires srvOK(server) && ctxOK(ctx) && ctx.upgrade.Stream != 3 && validUpgrade(ctx.upgrade) && ctx.upgrade.Heartbeat != 1
+//@   requires [C08] implies(ctx.upgrade.Stream != 2, ctx.f != nil && !isnil(ctx.args))
+//@   requires [C08 C04] implies(gb_registered(ctx), ctx.upgrade.Stream == 1)
+//@   requires [C08] implies(ctx.upgrade.Stream == 2 && ctx.ctx != nil, ctx.ctx.stream != nil)
+//@   requires [C08] implies(ctx.upgrade.Stream == 0 && ctx.upgrade.NoResponse != 1 && !gb_retout(ctx.f), !isnil(ctx.reply))
+//@   ensures [C04] implies(old(ctx.upgrade.Stream) == 0, gg_exec() == old(gg_exec()) + 1 && gg_wresp() == old(gg_wresp()) + 1)
+//@   ensures [C04] implies(old(ctx.upgrade.Stream) == 2, gg_exec() == old(gg_exec()) && gg_wresp() == old(gg_wresp()))
+//@   ensures [C04] implies(old(ctx.upgrade.Stream) == 1, gg_exec() == old(gg_exec()) && gg_wresp() == old(gg_wresp()) + 1)
+//@   ensures implies(old(ctx.upgrade.Stream) == 1, ctx.stream == old(ctx.stream))
+//@ func (*Server).callService$1
+//@   property C04 C08
+//@   requires ctx != nil && ctx.f != nil && !isnil(ctx.args)
+
+//@ func (*Server).handleRequest
+//@   property C04 C06 C08
+//@   modifies *ctx
+//@   requires srvOK(server) && ctxOK(ctx) && ctx.upgrade.Stream != 3 && validUpgrade(ctx.upgrade) && ctx.upgrade.Heartbeat != 1
+//@   requires [C08] implies(ctx.upgrade.Stream == 2 && ctx.ctx != nil, ctx.ctx.stream != nil)
+//@   requires [C08 C04] implies(gb_registered(ctx), ctx.upgrade.Stream == 1)
+//@   ensures [C04] gg_exec() <= old(gg_exec()) + 1 && gg_wresp() <= old(gg_wresp()) + 1
+//@   ensures [C04] implies(old(ctx.upgrade.Stream) == 0, gg_wresp() == old(gg_wresp()) + 1)
+//@   ensures implies(old(ctx.upgrade.Stream) == 1, ctx.stream == old(ctx.stream))
+
+//@ pure streamsOK(streams map[uint64]*Context) bool = streams != nil && forallkey(s, streams, streams[s] != nil && gb_registered(streams[s]) && streams[s].stream != nil && streams[s].stream.close != nil)
+
+//@ func (*Server).ServeRequest
+//@   property C04 C05 C08 C10
+//@   requires srvOK(server) && ctxOK(ctx) && streamsOK(streams) && !gb_registered(ctx)
+//@   ghostat mapupdate map[uint64]*Context#1: gb_registered(arg0) = true
+//@   ensures [C04] gg_exec() <= old(gg_exec()) + 1 && gg_wresp() <= old(gg_wresp()) + 1
+//@   ensures streamsOK(streams)
+//@ func (*Server).ServeRequest$1
+//@   requires true
+//@ func (*Server).ServeRequest$2
+//@   property C09
+//@   requires srvOK(server) && ctx != nil && !isnil(ctx.codec)
+//@ func (*Server).ServeRequest$3
+//@   requires [C08 C04] !gb_registered(ctx)
+//@   requires [C04] ctx.upgrade.Heartbeat != 1
+//@   requires [C08] validUpgrade(ctx.upgrade)
+//@   property C04 C08
+//@   requires srvOK(server) && ctxOK(ctx) && ctx.upgrade.Stream == 2 && implies(ctx.ctx != nil, ctx.ctx.stream != nil)
+//@ func (*Server).ServeRequest$4
+//@   requires [C08 C04] !gb_registered(ctx)
+//@   requires [C04] ctx.upgrade.Heartbeat != 1
+//@   requires [C08] validUpgrade(ctx.upgrade)
+//@   property C04 C05 C08
+//@   requires srvOK(server) && ctxOK(ctx) && ctx.upgrade.Stream == 0
+//@ func (*Server).ServeRequest$5
+//@   requires [C08 C04] !gb_registered(ctx)
+//@   requires [C04] ctx.upgrade.Heartbeat != 1
+//@   requires [C08] validUpgrade(ctx.upgrade)
+//@   property C04 C08
+//@   requires srvOK(server) && ctxOK(ctx) && ctx.upgrade.Stream == 0
+
+//@ iface ServerCodec.Messages
+//@   params codec
+//@   ensures !isnil(result)
+//@ iface ServerCodec.Close
+//@   params codec
+//@   ghostset gg_scodecClose() = gg_scodecClose() + 1
+//@ extern scheduler.Scheduler.Close
+//@   params s
+//@ func (*Server).deleteCodec
+//@   inline
+
+//@ lockinv Server.mutex
+//@   property C20
+//@   guards Server.codecs, Map<map[ServerCodec]io.Closer>
+//@   invariant self.codecs != nil
+
+//@ func (*Server).ServeCodec
+//@   property C04 C08 C10 C20
+//@   requires srvOK(server) && !isnil(codec)
+//@   loop 1: invariant streamsOK(streams) && fresh(streams) && !isnil(readStream) && !isnil(pipeline) && !isnil(messages)
+//@   loop 2: invariant streamsOK(streams)
+//@   ensures [C20] gg_scodecClose() == old(gg_scodecClose()) + 1
+//@ func (*Server).ServeCodec$1
+//@   property C04 C08
+//@   requires srvOK(server) && ctxOK(ctx) && streamsOK(streams) && !gb_registered(ctx)
